@@ -52,14 +52,14 @@ M('c16a-entry-test-after-loop-start', 'C16', 'break', RS,
   '    if (connp->out_status == HTP_STREAM_TUNNEL) {\n        #ifdef HTP_DEBUG\n        fprintf(stderr, "htp_connp_res_data: returning HTP_STREAM_TUNNEL\\n");\n        #endif\n\n        return HTP_STREAM_TUNNEL;\n    }\n\n    // Invoke a processor',
   '    if (connp->out_status == HTP_STREAM_TUNNEL && len > 1) {\n        return HTP_STREAM_TUNNEL;\n    }\n\n    // Invoke a processor', 'C16.a')
 M('c16b-probe-forgets-out-status', 'C16', 'break', RQ,
-  '        connp->in_status = HTP_STREAM_TUNNEL;\n        connp->out_status = HTP_STREAM_TUNNEL;\n    }',
+  '        connp->in_status = HTP_STREAM_TUNNEL;\n        if ((connp->out_status != HTP_STREAM_ERROR) && (connp->out_status != HTP_STREAM_STOP))\n            connp->out_status = HTP_STREAM_TUNNEL;\n    }',
   '        connp->in_status = HTP_STREAM_TUNNEL;\n    }', 'C16.b')
 M('c16b-101-forgets-in-status', 'C16', 'break', RS,
-  '            if (connp->in_status != HTP_STREAM_ERROR)\n                connp->in_status = HTP_STREAM_TUNNEL;\n            connp->out_status = HTP_STREAM_TUNNEL;',
+  '            if ((connp->in_status != HTP_STREAM_ERROR) && (connp->in_status != HTP_STREAM_STOP))\n                connp->in_status = HTP_STREAM_TUNNEL;\n            connp->out_status = HTP_STREAM_TUNNEL;',
   '            connp->out_status = HTP_STREAM_TUNNEL;', 'C16.b')
 M('c16b-101-with-cl-tunnels', 'C16', 'break', RS,
-  '        if (te == NULL && cl == NULL) {\n            connp->out_state = htp_connp_RES_FINALIZE;\n\n            if (connp->in_status != HTP_STREAM_ERROR)\n                connp->in_status = HTP_STREAM_TUNNEL;',
-  '        if (te == NULL) {\n            connp->out_state = htp_connp_RES_FINALIZE;\n\n            if (connp->in_status != HTP_STREAM_ERROR)\n                connp->in_status = HTP_STREAM_TUNNEL;', 'C16.b')
+  '        if (te == NULL && cl == NULL) {\n            connp->out_state = htp_connp_RES_FINALIZE;\n',
+  '        if (te == NULL) {\n            connp->out_state = htp_connp_RES_FINALIZE;\n', 'C16.b')
 M('c16c-wait-consumes', 'C16', 'break', RQ,
   '    if (connp->in_tx->response_progress <= HTP_RESPONSE_LINE) {\n        return HTP_DATA_OTHER;',
   '    if (connp->in_tx->response_progress <= HTP_RESPONSE_LINE) {\n        connp->in_current_read_offset = connp->in_current_len;\n        return HTP_DATA_OTHER;', 'C16.c')
@@ -625,7 +625,7 @@ M('c16h-method-length-precheck-exact-keep', 'C16', 'keep', UT,
   '    // TODO Optimize using parallel matching, or something similar.\n',
   '    size_t mlen = bstr_len(method);\n    if ((mlen < 3) || (mlen > 16)) return HTP_M_UNKNOWN;\n')
 M('c09f-close-tests-wrong-direction', 'C09', 'break', 'htp/htp_connection_parser.c',
-  '    if (connp->out_status != HTP_STREAM_ERROR)\n        connp->out_status = HTP_STREAM_CLOSED;', '    if (connp->in_status != HTP_STREAM_ERROR)\n        connp->out_status = HTP_STREAM_CLOSED;', 'C09.f')
+  '    if ((connp->out_status != HTP_STREAM_ERROR) && (connp->out_status != HTP_STREAM_STOP))\n        connp->out_status = HTP_STREAM_CLOSED;', '    if ((connp->in_status != HTP_STREAM_ERROR) && (connp->in_status != HTP_STREAM_STOP))\n        connp->out_status = HTP_STREAM_CLOSED;', 'C09.f')
 M('c09e-tracker-needs-timestamp', 'C09', 'break', 'htp/htp_connection.c',
   'void htp_conn_track_inbound_data(htp_conn_t *conn, size_t len, const htp_time_t *timestamp) {\n    if (conn == NULL) return;',
   'void htp_conn_track_inbound_data(htp_conn_t *conn, size_t len, const htp_time_t *timestamp) {\n    if ((conn == NULL) || (timestamp == NULL)) return;', 'C09.e')
@@ -694,9 +694,12 @@ M('c03h-one-sided-param-rename-keep', 'C03', 'keep', RS,
 
 # ---------------- repairs of recorded findings must leave the checks quiet (the known-finding entry just goes stale)
 CP = 'htp/htp_connection_parser.c'
-M('repair-d23-close-respects-stop', 'C09', 'keep', CP,
-  '    if (connp->in_status != HTP_STREAM_ERROR)\n        connp->in_status = HTP_STREAM_CLOSED;\n    if (connp->out_status != HTP_STREAM_ERROR)\n        connp->out_status = HTP_STREAM_CLOSED;',
-  '    if ((connp->in_status != HTP_STREAM_ERROR) && (connp->in_status != HTP_STREAM_STOP))\n        connp->in_status = HTP_STREAM_CLOSED;\n    if ((connp->out_status != HTP_STREAM_ERROR) && (connp->out_status != HTP_STREAM_STOP))\n        connp->out_status = HTP_STREAM_CLOSED;')
+M('c09f-d23-close-overwrites-stop', 'C09', 'break', CP,
+  '    if ((connp->in_status != HTP_STREAM_ERROR) && (connp->in_status != HTP_STREAM_STOP))\n        connp->in_status = HTP_STREAM_CLOSED;\n    if ((connp->out_status != HTP_STREAM_ERROR) && (connp->out_status != HTP_STREAM_STOP))\n        connp->out_status = HTP_STREAM_CLOSED;',
+  '    if (connp->in_status != HTP_STREAM_ERROR)\n        connp->in_status = HTP_STREAM_CLOSED;\n    if (connp->out_status != HTP_STREAM_ERROR)\n        connp->out_status = HTP_STREAM_CLOSED;', 'C09.f')
+M('c09f-guards-as-one-switch-keep', 'C09', 'keep', CP,
+  '    if ((connp->out_status != HTP_STREAM_ERROR) && (connp->out_status != HTP_STREAM_STOP))\n        connp->out_status = HTP_STREAM_CLOSED;\n\n    // Call the parsers one last time, which will allow them\n    // to process the events that depend on stream closure\n    htp_connp_req_data(connp, timestamp, NULL, 0);\n    htp_connp_res_data',
+  '    if (connp->out_status == HTP_STREAM_ERROR || connp->out_status == HTP_STREAM_STOP) {\n    } else {\n        connp->out_status = HTP_STREAM_CLOSED;\n    }\n\n    // Call the parsers one last time, which will allow them\n    // to process the events that depend on stream closure\n    htp_connp_req_data(connp, timestamp, NULL, 0);\n    htp_connp_res_data')
 M('repair-d16-consolidate-null-chunk', 'C01', 'keep', RQ,
   '    if (connp->in_buf == NULL) {\n        // We do not have any data buffered; point to the current data chunk.\n        *data = connp->in_current_data + connp->in_current_consume_offset;',
   '    if (connp->in_buf == NULL) {\n        // We do not have any data buffered; point to the current data chunk.\n        if (connp->in_current_data == NULL) {\n            *data = NULL;\n            *len = 0;\n            return HTP_OK;\n        }\n        *data = connp->in_current_data + connp->in_current_consume_offset;')
